@@ -34,6 +34,7 @@ def nodupNat : List Nat → Bool
   | x :: xs => !xs.contains x && nodupNat xs
 
 structure Case where
+  grain : Bool
   installed : Bool
   defMode : Mode
   max : Nat
@@ -42,16 +43,22 @@ structure Case where
 def parse (line : String) : Option Case :=
   match line.splitOn "|" with
   | [cfg, ops] =>
-    match words cfg with
-    | [m, mx] =>
+    let ws := words cfg
+    let (grain?, ws) := match ws with
+      | [m, mx, "to=g"] => (some true, [m, mx])
+      | [m, mx, "to=a"] => (some false, [m, mx])
+      | [m, mx] => (some false, [m, mx])
+      | _ => (none, ws)
+    match grain?, ws with
+    | some grain, [m, mx] =>
       if !(m.startsWith "mode=" && mx.startsWith "max=") then none else do
         let max ← (mx.drop 4).toString.toNat?
         let ms := (m.drop 5).toString
         let (inst, dm) ← (if ms = "a" then some (true, Mode.allowAll) else if ms = "s" then some (true, Mode.stash)
                           else if ms = "-" then some (false, Mode.off) else none)
         let ops ← (words ops).mapM op?
-        if nodupNat (qLabels ops) then pure { installed := inst, defMode := dm, max := max, ops := ops } else none
-    | _ => none
+        if nodupNat (qLabels ops) then pure { grain := grain, installed := inst, defMode := dm, max := max, ops := ops } else none
+    | _, _ => none
   | _ => none
 
 /-! rendering -/
@@ -85,7 +92,7 @@ def renderRun : Nat → List (St × Res) → List String
 def model (line : String) : String :=
   match parse line with
   | none => "bad-case"
-  | some c => " ; ".intercalate (renderRun 0 (run (St.init c.installed c.defMode c.max) c.ops))
+  | some c => " ; ".intercalate (renderRun 0 (run (St.init c.installed c.defMode c.max c.grain) c.ops))
 
 /-! parsing the implementation's output -/
 
